@@ -63,7 +63,7 @@ where Self: Debug + Default + PartialEq + Eq + Clone + 'static
     /// Get the next log index from the log id.
     fn next_log_index(log_id: Option<&Self::LogId>) -> u64 {
         match log_id {
-            Some(log_id) => Self::log_index(log_id) + 1,
+            Some(log_id) => Self::log_index(log_id).saturating_add(1),
             None => 0,
         }
     }
